@@ -4,6 +4,6 @@ cd /verif
 R=$1; shift
 for p in "$@"; do
   mkdir -p /tmp/sc/$R-$p; cp /tmp/seed$R-$p/patch.diff /tmp/sc/$R-$p/p.diff; cp /tmp/seed$R-$p/demo.py /tmp/sc/$R-$p/d.py
-  echo "== $p"; tools/seeded.py s-$p-$R $p /tmp/sc/$R-$p/p.diff /tmp/sc/$R-$p/d.py --tiers quick,thorough 2>&1 | tail -3 | cut -c1-400
+  echo "== $p"; tools/seeded.py s-$p-$R $p /tmp/sc/$R-$p/p.diff /tmp/sc/$R-$p/d.py --tiers ${TIERS:-quick,thorough} 2>&1 | tail -3 | cut -c1-400
   git -C /repo worktree remove --force /tmp/seed$R-$p
 done
